@@ -56,6 +56,9 @@ var c16Shared = map[string]string{
 	"grok.p": "add_pattern(\"pp\", \"[a-z]+\")\nif true {\n  add_pattern(\"qq\", \"\\\\d+\")\n  ok = grok(_, \"%{pp:w} %{qq:n:int} %{NUMBER:x:float}\")\n  add_key(ok)\n}\ngrok(line2, \"%{IP:ip} %{WORD:verb}\", false)\n",
 	"use.p":  "add_key(a1, 1)\nuse(\"lib1.p\")\nadd_key(a2, from_lib2)\n",
 	"lib1.p": "add_key(from_lib1, \"x\")\nuse(\"lib2.p\")\nreplace(msg2, \"(\\\\d+)-(\\\\d+)\", \"$2-$1\")\n",
+	// a callee that fails at run time for about half of the points: error paths release pooled objects too
+	"usefail.p": "add_key(b1, 1)\nif n % 2 == 0 {\n  use(\"mayfail.p\")\n}\nuse(\"mayfail.p\")\nadd_key(b2, 2)\n",
+	"mayfail.p": "l = [10, 20, 30]\nadd_key(seen_n, n)\nif n >= 25 {\n  add_key(picked, l[n])\n}\nuse(\"lib2.p\")\n",
 	"lib2.p": "add_key(from_lib2, len(\"héllo\"))\nfor i = 0; i < 3; i = i + 1 {\n  add_key(cnt, i)\n}\n",
 	"mix.p":  "xml(doc, \"/a/b\", xb)\nsql_cover(q)\ndefault_time(ts, \"Asia/Tokyo\")\nj = load_json(js)\nadd_key(jl, len(j[\"a\"]))\nl = [1, 2, 3, 4, 5]\nadd_key(sl, l[::-2])\ns = \"\"\nfor e in j[\"a\"] {\n  if e == 2 { continue }\n  s = s + \"x\"\n}\nadd_key(s)\nuppercase(verb)\ntrim(pad)\nurl_decode(u)\ncast(n, \"float\")\nset_tag(host)\nrename(renamed, msg2)\nstrfmt(f, \"%v-%s\", 1, verb)\n",
 }
@@ -105,7 +108,7 @@ func (k c16) Run(c *mon.Ctx, workload string, i int64) {
 		c.Violate("shared-set-rejected", fmt.Sprint(errs), nil)
 		return
 	}
-	runnable := []string{"grok.p", "use.p", "mix.p", "lib2.p"}
+	runnable := []string{"grok.p", "use.p", "mix.p", "lib2.p", "usefail.p", "usefail.p"}
 	// generated sources for the parsers
 	var genSrcs []string
 	for j := 0; j < 20; j++ {
@@ -163,6 +166,16 @@ func (k c16) Run(c *mon.Ctx, workload string, i int64) {
 	var total int32
 	type bad struct{ what, detail string }
 	badc := make(chan bad, 64)
+	var dropped int32
+	// never block a worker goroutine on the monitor's own channel: nobody
+	// drains it before the round is over
+	report := func(b bad) {
+		select {
+		case badc <- b:
+		default:
+			atomic.AddInt32(&dropped, 1)
+		}
+	}
 	subRounds := 8
 	opsPer = opsPer / subRounds
 	if opsPer < 5 {
@@ -200,7 +213,7 @@ func (k c16) Run(c *mon.Ctx, workload string, i int64) {
 						got := parseOutcome(src)
 						atomic.AddInt32(&inflight[0], -1)
 						if got != seqParse[src] {
-							badc <- bad{"concurrent-parse-differs", fmt.Sprintf("source %q\n  concurrent: %s\n  sequential: %s", src, short(got), short(seqParse[src]))}
+							report(bad{"concurrent-parse-differs", fmt.Sprintf("source %q\n  concurrent: %s\n  sequential: %s", src, short(got), short(seqParse[src]))})
 						}
 					case op == 3:
 						note(1)
@@ -209,13 +222,13 @@ func (k c16) Run(c *mon.Ctx, workload string, i int64) {
 						okS, errS := engine.ParseScript(c16Shared, cl, ck)
 						atomic.AddInt32(&inflight[1], -1)
 						if len(errS) > 0 || len(okS) != len(c16Shared) {
-							badc <- bad{"concurrent-load-differs", fmt.Sprintf("loading the shared set concurrently failed: %v", errS)}
+							report(bad{"concurrent-load-differs", fmt.Sprintf("loading the shared set concurrently failed: %v", errS)})
 						}
 					default:
 						name := runnable[r.Intn(len(runnable))]
 						ps := r.Int63n(nPoints)
 						kind := 2
-						if name == "use.p" {
+						if name == "use.p" || name == "usefail.p" {
 							kind = 3
 						}
 						note(kind)
@@ -243,7 +256,7 @@ func (k c16) Run(c *mon.Ctx, workload string, i int64) {
 						input.PutPoint(pt)
 						atomic.AddInt32(&inflight[kind], -1)
 						if got != seq[key{name, ps}] {
-							badc <- bad{"concurrent-run-differs", fmt.Sprintf("script %s on point #%d\n  concurrent: %s\n  sequential: %s", name, ps, short(got), short(seq[key{name, ps}]))}
+							report(bad{"concurrent-run-differs", fmt.Sprintf("script %s on point #%d\n  concurrent: %s\n  sequential: %s", name, ps, short(got), short(seq[key{name, ps}]))})
 						}
 					}
 					atomic.AddInt32(&total, 1)
@@ -254,6 +267,7 @@ func (k c16) Run(c *mon.Ctx, workload string, i int64) {
 		wg.Wait()
 	}
 	close(badc)
+	c.Count("differences_beyond_the_first_64", int(dropped))
 	c.Eval(int(total))
 	c.MaxOf("max_in_flight", int64(maxIn))
 	c.Cell("goroutine_counts", fmt.Sprint(G))
